@@ -448,7 +448,7 @@ def window_reads(run, m, F, E, f, ci):
     the comparison primitives over their range, by loads of the core or its helpers - must cover the window.  A unit never read
     cannot influence the answer: a haystack that differs from the needle only there is reported as an occurrence."""
     probs, und, nruns, nfound = [], [], 0, 0
-    for ns in threshold_sizes(m, F, f):
+    for ns in threshold_sizes(m, F, f, limit=300 if run.tier == 'thorough' else 64):
         class XH(SearchHooks):
             unroll = ns + 3
             widen_on_entry = False
